@@ -15,19 +15,19 @@ func init() {
 		ID: "C01", Level: "exploration",
 		Rule:        "seeded autocommit histories (Set/SetReader/Create+Write*+Close/Delete/Get/GetReader/GetKeys, empty keys, never-written keys; hostile keys; contents on the 2048/4096/32768/65536 boundaries) run step by step against the reference model through inline.Open, with a probe of every key (Get or GetReader) and GetKeys after every step; evaluations = client calls compared (steps + probes); distinct_nontrivial = distinct (operation, key class, content length class, result class) tuples observed",
 		Assumptions: []string{"reference model refmodel (written from the property statement)", "OS file system returns what was written"},
-		Roles:       map[string]Role{"main": {N: func(t string) int { return tierN(t, 160, 3000) }, Case: c01Case}},
+		Roles:       map[string]Role{"main": {N: func(t string) int { return tierN(t, 160, 12000) }, Case: c01Case}},
 	})
 	register(&Prop{
 		ID: "C02", Level: "exploration",
 		Rule:        "seeded histories with up to 5 simultaneously open transactions of all four levels plus the autocommit caller, sequentially interleaved Set/Delete/Get/GetKeys/Commit/Rollback and collector passes; after EVERY step every open transaction and the autocommit caller read every key and GetKeys, all compared with the reference model (RU: both datings of a committed value accepted); evaluations = reads compared; distinct_nontrivial = distinct histories that had >=2 transactions open at once, a key with >=2 committed versions and at least one instant where two actors legitimately read different results for the same key",
 		Assumptions: []string{"reference model refmodel"},
-		Roles:       map[string]Role{"main": {N: func(t string) int { return tierN(t, 320, 5000) }, Case: c02Case}},
+		Roles:       map[string]Role{"main": {N: func(t string) int { return tierN(t, 320, 20000) }, Case: c02Case}},
 	})
 	register(&Prop{
 		ID: "C03", Level: "exploration",
 		Rule:        "seeded commit-focused histories (overlapping and disjoint write sets, several writes per key, deletes, conflicts made by autocommit writes and by other commits, conflicting transaction rolled back, empty transactions); every Commit/Rollback result class and a probe of ALL keys by the autocommit caller and all open transactions after every step are compared with the model (both directions of the iff); evaluations = commits+rollbacks+probes; distinct_nontrivial = distinct (level, outcome, number of writes) commit/rollback classes observed x histories",
 		Assumptions: []string{"reference model refmodel"},
-		Roles:       map[string]Role{"main": {N: func(t string) int { return tierN(t, 320, 5000) }, Case: c03Case}},
+		Roles:       map[string]Role{"main": {N: func(t string) int { return tierN(t, 320, 20000) }, Case: c03Case}},
 	})
 }
 
